@@ -31,6 +31,7 @@ type Engine struct {
 	Tables    *Tables
 	RecDefs   map[string]*recDef
 	Active    map[string]*Contract
+	Epoch     map[string]bool
 }
 
 func loadEngine(repo, verif string) (*Engine, error) {
@@ -75,6 +76,14 @@ func loadEngine(repo, verif string) (*Engine, error) {
 		}
 	}
 	e.Funcs = parsePreludeSigs(pb.String())
+	e.Epoch = map[string]bool{}
+	for _, l := range strings.Split(pb.String(), "\n") {
+		if strings.HasPrefix(l, ";;@epoch ") {
+			for _, k := range strings.Fields(strings.TrimPrefix(l, ";;@epoch ")) {
+				e.Epoch[k] = true
+			}
+		}
+	}
 	e.Prelude, e.RecDefs = splitRecDefs(pb.String())
 
 	// contracts
